@@ -66,3 +66,12 @@ GROUPS += [
           note="loop-free plumbing (solution arrays of length 0); every callee outside exact.c is an arbitrary-result stub",
           assumed=[GATING_ASSUMED, "exact/verify: with messages enabled (msg_lvl == 0) the caller passes a dobjval (the message reads it)"]),
 ]
+
+GROUPS += [
+    Group("exact/gating_ebasis", "exact_gating.c", tus=["exact.c", "allocrus.c"], model=MODEL, defines=["FN_ebasis", "NSB=1", "NRB=2"], dfcc=False, std_checks=False, slice=True,
+          remove_bodies=["QSexact_optimal_test", "QSexact_infeasible_test", "optimal_output", "infeasible_output", "QScopy_prob_mpq_dbl", "QScopy_prob_mpq_mpf"],
+          unwind=max_iter() + 2, object_bits=10, timeout=1200, kind="bounded", flags=["--no-malloc-may-fail"],
+          bound="basis objects of 1 column and 2 rows (solution arrays of length 0); precision ladder completely unwound (QS_EXACT_MAX_ITER + 2, unwinding assertions on)",
+          must_fail=["reach_end", "reach_optimal_warm"], functions=["QSexact_solver", "QSexact_basis_status"], props=["C12", "C01", "C18"],
+          assumed=[GATING_ASSUMED, "exact/gating_ebasis: the basis accessors of the floating-point solvers always deliver a basis (allocation failure is not the subject)"]),
+]
